@@ -805,7 +805,7 @@ UNKNOWN = _Unknown()
 _PURE_BUILTINS = {"len": len, "int": int, "abs": abs, "min": min, "max": max, "tuple": tuple, "str": str,
                   "float": float, "bool": bool, "bytes": bytes, "round": round, "hex": hex, "list": list,
                   "sum": sum, "range": range, "sorted": sorted, "set": set, "dict": dict, "frozenset": frozenset,
-                  "any": any, "all": all, "zip": zip, "enumerate": enumerate, "reversed": reversed, "bin": bin}
+                  "any": any, "all": all, "zip": zip, "enumerate": enumerate, "reversed": reversed, "bin": bin, "divmod": divmod}
 _PURE_METHODS = {"hex", "format", "upper", "lower", "encode", "decode", "startswith", "endswith", "strip", "rstrip",
                  "lstrip", "to_bytes", "get", "keys", "values", "items", "count", "index", "join", "split", "replace",
                  "bit_length"}
